@@ -382,7 +382,9 @@ end
 
 /-! ### (2) from bytes to value on the tape path -/
 
-/-- C02 end to end, tape path: for every document of the sub-fragment, every valid layout of it
+/-- (FRAGMENT VERSION on the sub-fragment `PlainF` -- unquoted keys, no variables; kept because the C10 bridge
+builds on it; superseded by `C02_tape_end_to_end_full`, Proofs/TextEndToEndFull.lean.)
+C02 end to end, tape path: for every document of the sub-fragment, every valid layout of it
 (`fs` carries the layout, `gt` the trailing blanks), both encodings and every root target type that
 requests the document's shape, the tape the parser model produces from the BYTES deserializes to the
 value of the layout-free document: the value does not depend on the layout and is the document's. -/
@@ -395,7 +397,7 @@ theorem C02_tape_end_to_end (enc : TextDe.Enc) (ty : TextDe.Ty) (fs : JFields) (
   rw [tape_agree fs gt hp]
   exact TextDe.deTape_eq_valueOf enc ty (toDoc fs) hroot (wfF fs gt hp hv) hfit
 
-/-- the same with a UTF-8 byte order mark in front -/
+/-- the same with a UTF-8 byte order mark in front (fragment version on `PlainF`, see `C02_tape_end_to_end`) -/
 theorem C02_tape_end_to_end_bom (enc : TextDe.Enc) (ty : TextDe.Ty) (fs : JFields) (gt : Bytes)
     (hgt : Blank gt) (hv : JValidF fs gt) (hb : hasBom (jrenderF fs ++ gt) = false) (hp : PlainF fs)
     (hroot : Ty.isRoot ty = true) (hfit : FitsT enc false ty (.obj (toDoc fs))) :
@@ -920,7 +922,9 @@ theorem sliceLex_faithful (fs : JFields) (gt : Bytes) (hgt : Blank gt) (hv : JVa
   rw [h1, List.map_map]
   exact itemsM_agree fs hp
 
-/-- C02 end to end, stream path: for every document of the stream sub-fragment (`SPlainF`: scalars that are
+/-- (FRAGMENT VERSION on the stream sub-fragment `SPlainF`; kept because the C10 bridge builds on it; superseded by
+`C02_stream_end_to_end_full`.)
+C02 end to end, stream path: for every document of the stream sub-fragment (`SPlainF`: scalars that are
 reader-safe -- no `@variable`, no leading `?` --, objects with unquoted keys and every operator, arrays,
 empty containers, header values; no ghost `{}`, no implicit `=`), every valid layout of it, both encodings
 and every root target type that requests the document's shape, the tokens the slice reader model produces
@@ -933,7 +937,9 @@ theorem C02_stream_end_to_end (enc : TextDe.Enc) (ty : TextDe.Ty) (fs : JFields)
   ⟨(sliceLex_faithful fs gt hgt hv hb hp).1,
    C02_stream_end_to_end_partial enc ty fs gt hv (splain_plainF fs hp) (sliceLex_faithful fs gt hgt hv hb hp) hroot hfit⟩
 
-/-- C02 end to end, both paths from the same BYTES: tape path = stream path = the document's value, for
+/-- (FRAGMENT VERSION on `SPlainF`: unquoted keys, no ghost `{}`, no implicit `=`, no variables; kept because the C10
+bridge builds on it; superseded by `C02_paths_end_to_end_full`.)
+C02 end to end, both paths from the same BYTES: tape path = stream path = the document's value, for
 every valid layout. -/
 theorem C02_paths_end_to_end (enc : TextDe.Enc) (ty : TextDe.Ty) (fs : JFields) (gt : Bytes)
     (hgt : Blank gt) (hv : JValidF fs gt) (hb : hasBom (jrenderF fs ++ gt) = false) (hp : SPlainF fs)
@@ -944,7 +950,8 @@ theorem C02_paths_end_to_end (enc : TextDe.Enc) (ty : TextDe.Ty) (fs : JFields) 
   obtain ⟨T, b, h1, h2⟩ := C02_tape_end_to_end enc ty fs gt hgt hv hb (splain_plainF fs hp) hroot hfit
   exact ⟨T, b, h1, h2, (C02_stream_end_to_end enc ty fs gt hgt hv hb hp hroot (TextDe.fitsT_fits enc hfit)).2⟩
 
-/-- C02 end to end, EVERY root target type (errors included): from the same BYTES the tape path and
+/-- (FRAGMENT VERSION on `SPlainF`; superseded by `C02_error_agreement_end_to_end_full`.)
+C02 end to end, EVERY root target type (errors included): from the same BYTES the tape path and
 the stream path return the same result -- the same value or the same error class, namely
 `valueOf` -- unless the (type, document) pair contains one of the combinations listed in `Bad`
 (each of which has a concrete diverging witness: `C02_divergent_witnesses`). -/
@@ -959,7 +966,8 @@ theorem C02_error_agreement_end_to_end (enc : TextDe.Enc) (ty : TextDe.Ty) (fs :
   · exact Or.inl (C02_paths_end_to_end enc ty fs gt hgt hv hb hp hroot h)
   · exact Or.inr h
 
-/-- C02 end to end, streaming reader: the same for every fault-free read schedule and every buffer
+/-- (FRAGMENT VERSION on `SPlainF`; superseded by `C02_stream_end_to_end_scheduled_full`.)
+C02 end to end, streaming reader: the same for every fault-free read schedule and every buffer
 capacity that fits (`need ≤ cap`), via C07_stream_faithful. -/
 theorem C02_stream_end_to_end_scheduled (enc : TextDe.Enc) (ty : TextDe.Ty) (fs : JFields) (gt : Bytes)
     (cap : Nat) (sched : List TextReader.Step)
